@@ -537,6 +537,8 @@ func C05(c *core.Ctx) {
 	}
 	c.Floor("R5.1", "UnSetStrategyEnc call sites", nUnset, 1)
 
+	c05Keys(c, impls)
+
 	// ---- R5.3 sibling agreement on lock kind; mutators take the write lock
 	mutators := map[string]bool{"InsertNextHopEnc": true, "ClearNextHopsEnc": true, "RemoveNextHopEnc": true, "SetStrategyEnc": true, "UnSetStrategyEnc": true}
 	var tns []string
@@ -832,4 +834,213 @@ func isLenLike(p *core.Prog, v ssa.Value, depth int) bool {
 		}
 	}
 	return true
+}
+
+// c05Keys — three conditions on the keys under which FIB entries are kept:
+//
+// R5.9 the name and the strategy stored in an entry are private copies: a value stored
+// into an entry's name/strategy field traces, through the private helpers, to Clone() (or
+// a constant / package-level default), never to the bare parameter of an exported method.
+// The hash table recomputes its table keys from the stored name when it prunes, so a name
+// whose backing array the caller reuses removes or hides a different live entry.
+//
+// R5.10 the root prefix (the empty name, nil included) is an ordinary prefix for next-hop
+// insertion, removal, clearing and strategy setting: none of these operations branches on
+// the emptiness of its name argument (only UnSetStrategyEnc may: R5.1).
+//
+// R5.11 the hash-table FIB keys entries by the name hash alone, so the byte stream that
+// Component.HashInto feeds the hasher must be uniquely decodable: it includes the length
+// of the value (type ‖ value alone lets one component whose value embeds the 8-byte type
+// of another hash like two components, /a/b ≡ /<a‖type‖b>).
+func c05Keys(c *core.Ctx, impls []*types.Named) {
+	p := c.P
+	exportedMethod := func(fn *ssa.Function) bool {
+		return fn != nil && fn.Parent() == nil && fn.Signature.Recv() != nil && fn.Object() != nil && fn.Object().Exported()
+	}
+	var owned func(v ssa.Value, depth int, seen map[ssa.Value]bool) (bool, string)
+	owned = func(v ssa.Value, depth int, seen map[ssa.Value]bool) (bool, string) {
+		v = core.Strip(v)
+		if seen[v] {
+			return true, ""
+		}
+		seen[v] = true
+		switch x := v.(type) {
+		case *ssa.Const, *ssa.MakeSlice:
+			return true, ""
+		case *ssa.Call:
+			if id, ok := core.Callee(&x.Call); ok && (id.Name == "Clone" || id.Name == "Clip") {
+				return true, ""
+			}
+			if b, ok := x.Call.Value.(*ssa.Builtin); ok && b.Name() == "append" {
+				return owned(x.Call.Args[0], depth, seen)
+			}
+			return false, "the result of " + calleeName(x)
+		case *ssa.Slice:
+			if _, isAl := core.Strip(x.X).(*ssa.Alloc); isAl {
+				return true, ""
+			}
+			return owned(x.X, depth, seen)
+		case *ssa.UnOp:
+			if x.Op == token.MUL {
+				if _, isG := x.X.(*ssa.Global); isG {
+					return true, ""
+				}
+				if al, isAl := x.X.(*ssa.Alloc); isAl {
+					all := true
+					why := ""
+					n := 0
+					for _, r := range core.Refs(al) {
+						if st, ok := r.(*ssa.Store); ok && st.Addr == ssa.Value(al) {
+							n++
+							if ok2, w := owned(st.Val, depth, seen); !ok2 {
+								all, why = false, w
+							}
+						}
+					}
+					return all && n > 0, why
+				}
+			}
+			return false, "a value loaded from " + describeValue(x.X)
+		case *ssa.Phi:
+			for _, e := range x.Edges {
+				if ok, w := owned(e, depth, seen); !ok {
+					return false, w
+				}
+			}
+			return true, ""
+		case *ssa.Parameter:
+			fn := x.Parent()
+			if exportedMethod(fn) || depth == 0 {
+				return false, "parameter " + x.Name() + " of " + core.FuncName(fn)
+			}
+			idx := -1
+			for i, q := range fn.Params {
+				if q == x {
+					idx = i
+				}
+			}
+			sites := p.Callers(fn)
+			if len(sites) == 0 || idx < 0 {
+				return false, "parameter " + x.Name() + " of " + core.FuncName(fn)
+			}
+			for _, ci := range sites {
+				if ps := ci.Parent().Pos(); ps.IsValid() && strings.HasSuffix(p.Fset.Position(ps).Filename, "_test.go") {
+					continue
+				}
+				recv, args := core.CallArgs(ci.Common())
+				all := args
+				if fn.Signature.Recv() != nil {
+					all = append([]ssa.Value{recv}, args...)
+				}
+				if idx >= len(all) {
+					return false, "an argument of " + core.FuncName(ci.Parent())
+				}
+				if ok, w := owned(all[idx], depth-1, seen); !ok {
+					return false, w
+				}
+			}
+			return true, ""
+		}
+		return false, describeValue(v)
+	}
+	nStores := 0
+	for _, t := range impls {
+		tn := t.Obj().Name()
+		for _, fn := range p.FuncsIn(core.ModPath + "/fw/table") {
+			root := fn
+			for root.Parent() != nil {
+				root = root.Parent()
+			}
+			id := core.FuncID(root)
+			if id.Recv != tn && !(tn == "FibStrategyTree" && id.Recv == "fibStrategyTreeEntry") {
+				continue
+			}
+			core.Instrs(fn, func(in ssa.Instruction) {
+				for _, fld := range []string{"name", "strategy"} {
+					_, v, ok := storeToField(in, "baseFibStrategyEntry", fld)
+					if !ok || core.IsNilConst(v) {
+						continue
+					}
+					nStores++
+					c.Funcs[core.FuncName(fn)] = true
+					okO, why := owned(v, 3, map[ssa.Value]bool{})
+					c.Decide(okO, "R5.9", fmt.Sprintf("stored-%s-is-private-copy:%s", fld, core.FuncName(fn)), c.Pos(in), "the stored "+fld+" is a private copy (Clone / constant / package default)", tn+" keeps the caller's slice as the entry's "+fld+" ("+why+"): when the caller reuses the backing array (names built by append on a shared prefix) the entry's key changes under the table; the hash table then prunes or hides a different live entry")
+				}
+			})
+		}
+		// ---- R5.10
+		for _, m := range []string{"InsertNextHopEnc", "RemoveNextHopEnc", "ClearNextHopsEnc", "SetStrategyEnc"} {
+			fn := p.MethodOf(t, m)
+			if fn == nil || fn.Blocks == nil || len(fn.Params) < 2 {
+				continue
+			}
+			name := ssa.Value(fn.Params[1])
+			empty := &core.Atom{Name: "name is empty", Match: func(cond ssa.Value) (int, int) {
+				op, x, y, ok := core.Cmp(cond)
+				if !ok {
+					return 0, 0
+				}
+				if core.IsNilConst(x) {
+					x, y = y, x
+				}
+				if core.IsNilConst(y) && (core.Strip(x) == name || core.Same(x, name)) && (op == token.EQL || op == token.NEQ) {
+					return core.Iff(op == token.EQL)
+				}
+				l, isLen := core.LenOf(x)
+				k, isC := core.ConstInt(y)
+				if isLen && isC && (l == name || core.Same(l, name)) && k <= 1 {
+					switch {
+					case (op == token.EQL && k == 0) || (op == token.LSS && k == 1) || (op == token.LEQ && k == 0):
+						return 1, -1
+					case (op == token.NEQ && k == 0) || (op == token.GTR && k == 0) || (op == token.GEQ && k == 1):
+						return -1, 1
+					}
+				}
+				return 0, 0
+			}}
+			facts := core.EdgeFactsDeep(fn, empty)
+			pos0 := p.Pos(fn.Pos())
+			if len(facts) > 0 {
+				pos0 = c.Pos(facts[0].E.From.Instrs[len(facts[0].E.From.Instrs)-1])
+			}
+			c.Decide(len(facts) == 0, "R5.10", "root-prefix-not-special-cased:"+tn+"."+m, pos0, "the operation does not branch on the emptiness of its name", tn+"."+m+" treats the empty (root) name differently from other names: the operation is skipped or altered for the root prefix, so the two FIB implementations diverge and a next hop / strategy registered on / cannot be changed like any other")
+		}
+	}
+	c.Floor("R5.9", "stores of an entry name / strategy", nStores, 4)
+	// ---- R5.11
+	if hi := c.Fn("R5.11", "std/encoding", "Component", "HashInto"); hi != nil {
+		fed := false
+		core.Instrs(hi, func(in ssa.Instruction) {
+			cl, ok := isBuiltinCall(in, "len")
+			if !ok {
+				return
+			}
+			if _, isVal := core.FieldOf(cl.Call.Args[0], "Val"); !isVal {
+				return
+			}
+			// the length reaches a call argument (PutUintNN / Write / append)
+			seen := map[ssa.Value]bool{}
+			var walk func(v ssa.Value)
+			walk = func(v ssa.Value) {
+				if seen[v] {
+					return
+				}
+				seen[v] = true
+				for _, r := range core.Refs(v) {
+					switch x := r.(type) {
+					case ssa.CallInstruction:
+						fed = true
+					case *ssa.Convert:
+						walk(x)
+					case *ssa.BinOp:
+						walk(x)
+					case *ssa.Store:
+						fed = true
+					}
+				}
+			}
+			walk(cl)
+		})
+		c.Decide(fed, "R5.11", "name-hash-delimits-components", p.Pos(hi.Pos()), "the component hash input includes the length of the value", "Component.HashInto feeds the hasher type ‖ value without the value's length: the hash input of a name is not uniquely decodable (/a/b and the one-component name a‖<8-byte type>‖b hash alike), and the hash-table FIB, which keys entries by this hash alone, answers lookups for one name with the next hops of the other (and indexes past the shorter name)")
+	}
 }
